@@ -12,6 +12,23 @@ def enum(name, test, quick, thorough):
 NOT_APPLICABLE = {}
 
 CHECKS = {
+    "C01": {
+        "technique": "rapid random generation of document pairs and option sets + exhaustive small array pairs, oracle = round trip through the in-memory diff judged by Equals",
+        "level_text": "Generated (a, b, option set) triples — edit-derived, independent and equal pairs, void documents, keyed sets, null-free "
+                      "merge documents — are diffed and the unserialised diff is applied to a fresh a; the result must Equal b under the same "
+                      "options. All pairs of small arrays over a 4-element alphabet are enumerated. Exploration: sampled beyond the enumerated universe.",
+        "level_note": "Equality is jd's own Equals as the statement says (its correctness is C04's business; disagreement with the canonical-form "
+                      "oracle is counted in the evidence). Documents are bounded in depth (<=4) and array length (<=9).",
+        "rule": "random leg: (a, b) = (Doc, Edit(a)) 70% / independent 23% / equal 7%, option set drawn from list, set, mset, setkeys:id, "
+                "setkeys:id,k, merge, set+merge, mset+merge with the preconditions of the statement built into the generator (null-free for merge, "
+                "complete unique key tuples for setkeys); exhaustive leg: all ordered pairs of arrays of length <= 3 (thorough 4) over {0,1,[0],{\"a\":0}}, "
+                "at the root and under a key, in list/set/mset mode. Non-trivial: a != b textually and the diff has >= 1 hunk; distinct by (a, b, options).",
+        "assumptions": ["a fresh parse of a is used for every Patch because Patch mutates its receiver"],
+        "legs": [
+            enum("exhaustive", "TestC01Exhaustive", {"shards": 4}, {"shards": 16, "timeout": 6000}),
+            rapid("random", "TestC01Random", {"checks": 30000, "shards": 4}, {"checks": 400000, "shards": 16, "timeout": 6000}),
+        ],
+    },
     "C06": {
         "technique": "exhaustive enumeration of small array pairs + rapid random generation, oracle = independent LCS optimum and reference hunk interpreter",
         "level_text": "Every ordered pair of arrays over a small alphabet up to a length bound is enumerated (complete for that universe) and "
